@@ -22,6 +22,7 @@ class Models:
         self.hooks_call = []
         self.hooks_instantiate = []
         self.key_universes = []
+        self.const_overrides = {}      # "relpath::NAME" -> symbolic value standing for a module-level constant
         self.ufun_axioms_used = set()
         _install(self)
         self.hooks_instantiate.append(singleton_hook)
